@@ -747,6 +747,7 @@ def run_c02(ctx: fw.Ctx) -> None:
     run_witnesses(ctx, ["K1", "K2", "K3"], MIN_STYLES)
     t2_format(ctx, [(p, "min") for p in t2_programs(ctx, 250, 5000)])
     t2_units(ctx, ["findlevel", "sep", "comment", "string"])
+    t2_passes(ctx)
 
 
 def run_c03(ctx: fw.Ctx) -> None:
@@ -801,6 +802,7 @@ def run_c08(ctx: fw.Ctx) -> None:
     t2p = t2_programs(ctx, 150, 3000)
     t2_format(ctx, [(p, styles[i % len(styles)]) for i, p in enumerate(t2p)] + [(p, style_space(r)) for p in t2p])
     t2_units(ctx, ["findlevel", "sep", "wrap", "comment", "string"])
+    t2_passes(ctx)
 
 
 def run_c15(ctx: fw.Ctx) -> None:
@@ -2223,6 +2225,35 @@ def run_c18(ctx: fw.Ctx) -> None:
             if (a == b) != same:
                 st_n.fail("== disagrees with structural identity (numeral digits)", case)
     st_n.exhaustive = True
+    st_t = ctx.stream("Token.__eq__ / __hash__ and AttributedName.__eq__ directly: equal iff (type, value) resp. (name, attribute) are equal; position and comments never matter")
+    for _ in range(ctx.n(60, 1000)):
+        g = gen.ProgGen(r, gen.Cfg(max_depth=r.choice([1, 2]), max_stats=3))
+        toks = g.chunk()
+        a_src, b_src = gen.render(toks, r, plain=True), relayout(r, toks)
+        (sa, ta), (sb, tb) = tlex(a_src), tlex(b_src)
+        case = {"kind": "pair", "a": a_src, "b": b_src}
+        st_t.record(case, key=a_src + "\0" + b_src)
+        if sa != "ok" or sb != "ok" or len(ta) != len(tb):
+            continue
+        for x, y in zip(ta, tb):
+            if not (x == y) or hash(x) != hash(y):
+                st_t.fail("tokens of the same program in another layout compare unequal (or hash differently)", dict(case, token=str(x)))
+                break
+        for i in range(len(ta) - 1):
+            x, y = ta[i], ta[i + 1]
+            same = (x.type, x.value) == (y.type, y.value)
+            if (x == y) != same or (x == (x.type, x.value)) or (x == None):  # noqa: E711
+                st_t.fail("Token.__eq__ disagrees with (type, value) identity", dict(case, x=str(x), y=str(y)))
+                break
+    N = lambda n: A.Name(T(), n)  # noqa: E731
+    AN = AttributedName
+    att_pairs = [(AN(N("a")), AN(N("a")), True), (AN(N("a")), AN(N("b")), False), (AN(N("a"), N("const")), AN(N("a")), False),
+                 (AN(N("a"), N("const")), AN(N("a"), N("close")), False), (AN(N("a"), N("const")), AN(N("a"), N("const")), True)]
+    for x, y, want in att_pairs:
+        case = {"kind": "pair", "a": str(x), "b": str(y)}
+        st_t.record(case, key="att" + str(x) + "|" + str(y))
+        if (x == y) != want or (y == x) != want or x == N("a") or x == "a" or repr(x) == "":
+            st_t.fail("AttributedName.__eq__ disagrees with (name, attribute) identity", case)
     st_l = ctx.stream("same program linked differently (parent links to another root, another file name, after resolution from another directory): must be equal")
     for i in range(ctx.n(60, 1000)):
         g = gen.ProgGen(r, gen.Cfg(max_depth=r.choice([1, 2]), max_stats=3))
@@ -3256,6 +3287,104 @@ def t2_units(ctx: fw.Ctx, which: list[str], name: str = "T2:units") -> None:
                 break
 
 
+# =========================================================================== T2 correspondence of the layout passes on ARBITRARY piece lists
+_SEPBYNAME = {v: k for k, v in _SEPNAME.items()}
+
+
+def _enc_pieces(ps) -> str:
+    return show_pieces(ps) if ps else "-"
+
+
+def t2_passes(ctx: fw.Ctx, name: str = "T2:passes") -> None:
+    """Every layout pass, alone, on piece lists the emitter never produces as well (empty strings, doubled and dangling separators, unbalanced brackets):
+    exhaustive up to length 3 over a vocabulary of 20 pieces, random longer lists, and mutated emitter outputs.  The theorems about the passes are stated
+    for arbitrary lists; this ties the models on them."""
+    st = ctx.stream(name + " correspondence (each layout pass on arbitrary piece lists)")
+    r = ctx.rng("t2passes")
+    S = FM.Separators
+    vocab = ["a", "(", ")", "{", "}", "[", "1", "-", "..", "=", '"s"', "", "--c", "do"] + [S.Statement, S.Newline, S.Argument, S.Space, S.Dot, S.Indent, S.DeIndent, S.Block]
+    lists = [list(c) for k in range(0, 3 if ctx.quick else 4) for c in itertools.product(vocab, repeat=k)]
+    long_vocab = vocab + ["function", "end", "x", ",", "]", "'a long string literal with several words inside it'", '"q\\n"', "[[l]]", "0x1p4", "::", ":", "then", "return"]
+    for _ in range(ctx.n(1500, 30000)):
+        lists.append([r.choice(long_vocab) for _ in range(r.randint(3, 14))])
+    # mutated emitter outputs
+    for src in random_programs(ctx, "t2passes-progs", ctx.n(40, 600)):
+        stt, ast = tparse(src)
+        if stt != "ok":
+            continue
+        with quiet():
+            ts = FM.Formatter(r.choice([FormattingStyle, MinifiedStyle])).visit(ast)
+        lists.append(list(ts))
+        for _ in range(3):
+            m = list(ts)
+            for _ in range(r.randint(1, 3)):
+                if not m:
+                    break
+                i = r.randrange(len(m))
+                k = r.random()
+                if k < 0.4:
+                    del m[i]
+                elif k < 0.7:
+                    m.insert(i, r.choice(vocab))
+                else:
+                    m[i] = r.choice(vocab)
+            lists.append(m)
+    stys = [FormattingStyle, MinifiedStyle, mkstyle(dict(LINE_WIDTH=8, INDENTATION="  ", BLOCK_SPACER=1)), mkstyle(dict(STATEMENT_SEPARATOR=";", ARGUMENT_SEPARATOR=",", LINE_WIDTH=20))]
+    priv = FM.__dict__
+    passes = {
+        "remove": lambda ts, sty: FM.remove_separators(ts),
+        "brackets": lambda ts, sty: FM.indent_brackets(ts, sty),
+        "spacing": lambda ts, sty: FM.add_spacing(ts, sty),
+        "orphans": lambda ts, sty: priv["__remove_orphaned_tokens"](ts),
+        "resolve": lambda ts, sty: FM.resolve_tokens(ts, sty),
+        "indent": lambda ts, sty: FM.indent(ts, sty.INDENTATION),
+    }
+    def balanced(ps) -> bool:
+        stack = []
+        for p_ in ps:
+            if p_ in ("(", "[", "{"):
+                stack.append(p_)
+            elif p_ in (")", "]", "}"):
+                if not stack or stack.pop() != {")": "(", "]": "[", "}": "{"}[p_]:
+                    return False
+        return not stack
+
+    reqs = []
+    for i, ps in enumerate(lists):
+        sty = stys[i % len(stys)]
+        for pname in passes:
+            if pname == "brackets" and not balanced(ps):
+                # indent_brackets walks back from a closing bracket to its opener: on unbalanced lists Python's negative indices wrap around, which the
+                # model does not imitate (it reports an error); the emitter only produces balanced lists (Theory: the discipline `Disc`)
+                continue
+            reqs.append((pname, ps, sty))
+        reqs.append(("join", ps, sty))
+    answers = drive([("mpass", pname, _enc_pieces(ps), *style_args(sty)) for pname, ps, sty in reqs])
+    diffs = 0
+    for (pname, ps, sty), ans in zip(reqs, answers):
+        st.record({"kind": "t2-pass", "pass": pname}, key=pname + "|" + _enc_pieces(ps) + "|" + str(stys.index(sty)))
+        st.notes[pname] = st.notes.get(pname, 0) + 1
+        work = list(ps)
+        try:
+            with quiet():
+                if pname == "join":
+                    mine = "ok " + hx(FM.join_tokens(work))
+                else:
+                    with_watchdog(3, passes[pname], work, sty)
+                    mine = "ok " + show_pieces(work)
+        except Timeout:
+            mine = "timeout"
+        except Exception as e:  # noqa: BLE001
+            mine = f"err py {type(e).__name__}"
+        same = ans == mine or (ans.startswith("err py") and mine.startswith("err py") and ans.split()[2] == mine.split()[2])
+        if not same:
+            diffs += 1
+            ctx.tie_broken(name, {"pass": pname, "pieces": _enc_pieces(ps)[:300], "style": stys.index(sty), "model": ans[:400], "tumfl": mine[:400]})
+            if diffs > 25:
+                break
+    st.notes["lists"] = len(lists)
+
+
 # =========================================================================== Lean obligations per property (overrides the placeholders above)
 ALL_T1 = ["Brackets", "FmtTables", "LexTables", "Ladder"]
 LEAN_OBLIGATIONS: dict[str, dict] = {
@@ -3417,7 +3546,9 @@ for _p, _extra in (("C01", []), ("C02", []), ("C08", []), ("C15", [])):
         obligations=LAYOUT_OBL + PIECE_OBL,
         extractors=ALL_T1,
         tie_names=["T1:Brackets", "T1:FmtTables", "T1:LexTables", "T1:Ladder", "T2:format (emit and every layout pass, stage by stage, and the final text)",
-                   "T2:units (_find_level, sep_required, __escape_positions, __get_newline_pos, _string_ident, _format_comment, visit_String: every input up to a length over small alphabets)"],
+                   "T2:units (_find_level, sep_required, __escape_positions, __get_newline_pos, _string_ident, _format_comment, visit_String: every input up to a length over small alphabets)",
+                   "T2:passes (remove_separators, indent_brackets, add_spacing, __remove_orphaned_tokens, resolve_tokens, indent, join_tokens, each alone on arbitrary piece lists: "
+                   "exhaustive up to length 2/3 over 22 pieces, random longer lists, mutated emitter outputs)"],
         partial_hypotheses=FORMAT_PARTIAL + (["idempotence itself (C15) has no theorem: byte comparison of two minify passes in the oracle stream"] if _p == "C15" else []),
     )
 LEAN_OBLIGATIONS["C11"] = dict(
